@@ -202,7 +202,7 @@ PROPS = {
     "API": _p("exploration", ["api", "builders"], ["API."], "random values for SerialNumber, CertificateParams::new, insert_extended_key_usage, Zeroize, generate_simple_self_signed, conversions; every call sequence of MC_Builders through the rustls-cert-gen builder library",
               ops=None, exhaustive=False),
     "C02": _p("model_checking", ["cert", "sessions"], ["C02."],
-              "cases = elements of the finite set Cases of spec/MC_Cert.tla (presence product + value sweeps); an event is distinct by its abstract args (parameters, key algorithms, loading entry point) without key material; every event is non-trivial in that at least the subject, validity and serial clauses are exercised",
+              "cases = elements of the finite set Cases of spec/MC_Cert.tla (presence product + value sweeps); an event is distinct by its abstract args (parameters, key algorithms, loading entry point) without key material; every event is non-trivial in that at least the subject, validity and serial clauses are exercised; plus caller extensions under the OIDs of typed fields (alone and next to the typed field), sole extension sources, subject keys with special leading / trailing octets through every hand-over path, certificates under every algorithm from_oid hands out",
               ops=["Cert"], exhaustive=True),
     "C09": _p("model_checking", ["time", "cert", "crl"], ["C09."],
               "cases = MC_Time.TimeCases: (boundary day, delta seconds, UTC offset) triples around 1950-01-01, 2050-01-01, 0000-01-01 and 10000-01-01, each expressed under an offset and under the negated offset with different sub-second parts; distinct by abstract args",
@@ -217,10 +217,10 @@ PROPS = {
               "cases = MC_Crl.Cases: update orderings (including sub-second differences inside one second before 1970, at year 1 and across the epoch) x issuer key-usage sets x entry shapes; all reason codes x invalidity dates; serial / CRL-number byte-string classes squared; IDP URIs x scopes; 5x5 key-id methods; algorithms; times around the form boundaries in all CRL time fields; for a third of the CRLs without IDP, certificates really issued under every listed serial, the same INTEGER with other leading zero octets, a neighbouring value and unlisted serials are looked up by OpenSSL (X509_CRL_get0_by_cert) and by webpki (verify_for_usage with the CRL)",
               ops=["Crl", "RevocationCheck"], exhaustive=True),
     "C12": _p("model_checking", ["path"], ["C12."],
-              "MC_Path.Cases: chains root -> 0..3 intermediates -> leaf, one dimension varied at one position: CA flag variant of each issuer, path length {absent,0,1,2} against depth, verification day before/inside/after each window, permitted/excluded/both DNS and IPv4/IPv6 subtrees (prefixes 0,1,8,9,24,31,32 | 0,1,64,65,127,128) at root or intermediate against leaf names inside/outside/at the subnet boundary, leaf EKU subsets against server/client purpose, CA key-usage sets with/without keyCertSign, CA-flag variants without any key usage (a non-CA certificate then carries no extension at all), validity windows that begin before 1950 / end after 2049 given with sub-second parts under an offset; each chain is built by rcgen and judged by OpenSSL and webpki where the coverage table (PathValidation!Covered) says the validator's documented semantics cover the dimension",
+              "MC_Path.Cases: chains root -> 0..3 intermediates -> leaf, one dimension varied at one position: CA flag variant of each issuer, path length {absent,0,1,2} against depth, verification day before/inside/after each window, permitted/excluded/both DNS and IPv4/IPv6 subtrees (prefixes 0,1,8,9,24,31,32 | 0,1,64,65,127,128) at root or intermediate against leaf names inside/outside/at the subnet boundary, leaf EKU subsets against server/client purpose, CA key-usage sets with/without keyCertSign, CA-flag variants without any key usage (a non-CA certificate then carries no extension at all), validity windows that begin before 1950 / end after 2049 given with sub-second parts under an offset; each chain is built by rcgen and judged by OpenSSL and webpki where the coverage table (PathValidation!Covered) says the validator's documented semantics cover the dimension; fully satisfied chains under every key-identifier method issued directly and through a parsed request; DNS constraints written with a leading period",
               ops=["Validate"], exhaustive=True),
     "C18": _p("model_checking", ["cli"], ["C18."],
-              "MC_Cli.Cases: key algorithm x SAN list shapes (none, DNS, IPv4, IPv6, mixed, non-ASCII, trailing dot, IPv4-mapped IPv6); country x common name x organisation classes (default, every PrintableString character, '?', '>', '@', non-ASCII, empty, UTF-8); base-name pairs (default, custom, with dots, sharing a prefix up to the last dot, with spaces) x output directory (existing, missing, nested, second run over a longer first run) ; purpose flags; invalid classes crossed with names/directories; length sweeps (an offending two-octet character after 0..140 ASCII letters in --country-name and --san, long valid values); both back ends' binaries, each run in a fresh directory, written files parsed by the harness's own PEM/DER readers, chains judged by OpenSSL and webpki",
+              "MC_Cli.Cases: key algorithm x SAN list shapes (none, DNS, IPv4, IPv6, mixed, non-ASCII, trailing dot, IPv4-mapped IPv6); country x common name x organisation classes (default, every PrintableString character, '?', '>', '@', non-ASCII, empty, UTF-8); base-name pairs (default, custom, with dots, sharing a prefix up to the last dot, with spaces) x output directory (existing, missing, nested, second run over a longer first run) ; purpose flags; invalid classes crossed with names/directories; length sweeps (an offending two-octet character after 0..140 ASCII letters in --country-name and --san, long valid values); both back ends' binaries, each run in a fresh directory, written files parsed by the harness's own PEM/DER readers, chains judged by OpenSSL and webpki; common names that look like hosts / addresses / mailboxes / URLs x purposes x SAN presence",
               ops=["CliRun"], exhaustive=True),
     "C13": _p("model_checking", ["strings", "import"], ["C13."],
               "every Unicode scalar value as a one-character string through every text constructor of the five types (run-length encoded verdicts, judged element by element in TLA+), every 16-bit unit and every 32-bit value < 0x120000 through the byte-level constructors, hand-built and random byte strings (odd lengths, lone/paired surrogates, > U+10FFFF), random multi-character strings with planted outsiders, placement of sampled accepted values in names / alternative names with decoding, every string kind under every standard attribute type, the complete transfer encoding of every accepted code point block by block (BMPString all; UniversalString plane 0 in quick, all planes in thorough), a fixed list of delicate code points (BOM, non-characters, plane boundaries), the text views (as_str, as_ref, Display, == with str / String and references) on random texts and near misses, the loading path (foreign CA certificates whose name values step outside the alphabet of their tag must be refused); distinct by event arguments",
@@ -229,7 +229,7 @@ PROPS = {
               "matrix enumerated by MC_Outcome: 4 generation functions x 52 hostile-but-constructible value classes (non-ASCII / NUL / empty / 64 KiB text in String-typed IA5 positions; OID lists [], [1], [3,1], [1,40], [1,39,max], [2,2^64-1], [2,2^64-81] (first unencodable), [2,2^64-82], [2,2^63], later arcs of 2^64-1, 1000 arcs in each of the four OID-carrying positions (product enumerated in TLA+); years -9999, -1, 0, 9999 and offsets that push the UTC year to -1 / 10000; empty and 1 MiB serials / CRL numbers / custom contents; malformed CSR attribute values) each met under six backgrounds of the other parameters (plain, present-but-empty name constraints, CA with path length, ExplicitNoCa, AKI + CRL DP + name constraints, every kind of SAN / KU / EKU / custom extension) plus the 5 documented panics; 19 parser entry points x 6 byte-string classes over valid seeds (rcgen and OpenSSL certificates, CSRs, PKCS#8/SEC1/PKCS#1 keys, SPKIs, PEM texts): substitution of 8 values / truncation / insertion-deletion at every position (strided in quick), TLV-aware mutations with length repair reaching into extension values (12 kinds, including contents with every continuation bit set, non-minimal and over-long sub-identifiers), random bytes; Display/Debug of errors that echo caller input for invalid strings of every length 0..299 ending in 2/3/4-octet characters; coverage predicates require every cell; C10.no_panic is also evaluated on every event of the certificate, time, CSR, CRL, CSR-parsing, key and string pipelines; distinct by (function, class) cell and event arguments",
               ops=None, exhaustive=False),
     "C11": _p("model_checking", ["keys"], ["C11."],
-              "keys generated by rcgen (generate_for every algorithm, generate_rsa_for 2048/3072(/4096) under aws-lc-rs; unavailable generation must be an error) held to every clause of a loaded key; key type (Ed25519, P-256, P-384, P-521, RSA-2048, RSA-3072; 4096 in thorough) x origin/format (OpenSSL PKCS#8, SEC1, PKCS#1; rcgen-generated PKCS#8 v1/v2) x 9 loading entry points x requested algorithm (none + every algorithm of the build, all misfits) x back end (ring, aws-lc-rs); every successful load signs, re-exports and re-loads through every one of the 9 entry points (told the key's own algorithm where one is asked for); Ed25519 keys whose public key begins with 0x00 / 0xff / 0x30 / 0x04 or ends with 0x00; plus the algorithm table event; distinct by (key type, format, entry, requested algorithm, back end)",
+              "keys generated by rcgen (generate_for every algorithm, generate_rsa_for 2048/3072(/4096) under aws-lc-rs; unavailable generation must be an error) held to every clause of a loaded key; key type (Ed25519, P-256, P-384, P-521, RSA-2048, RSA-3072; 4096 in thorough) x origin/format (OpenSSL PKCS#8, SEC1, PKCS#1; rcgen-generated PKCS#8 v1/v2) x 9 loading entry points x requested algorithm (none + every algorithm of the build, all misfits) x back end (ring, aws-lc-rs); every successful load signs, re-exports and re-loads through every one of the 9 entry points (told the key's own algorithm where one is asked for); Ed25519 keys whose public key begins with 0x00 / 0xff / 0x30 / 0x04 or ends with 0x00; plus the algorithm table event; distinct by (key type, format, entry, requested algorithm, back end); every key encoding inside every label of PrivateKeyDer (caller-labelled, rightly and wrongly), detected and told (operation KeyWrapped)",
               ops=["KeyLoad", "KeyGen", "KeyWrapped", "AlgTable"], exhaustive=True),
     "C14": _p("model_checking", ["pem", "cli"], ["C14."],
               "certificate / CSR / CRL for common-name lengths 0..149 (every residue of the DER length modulo 48 is required by a coverage predicate evaluated by TLC) x algorithms (Ed25519 over the full span, P-256/P-384/RSA-2048 sampled, multi-kilobyte RSA certificates with 40 SANs), private and public key PEM per algorithm, the private-key PEM of every key origin (OpenSSL PKCS#8 v1, SEC1, PKCS#1, rcgen-generated) offered to each of rcgen's three PEM loaders, remote keys (no DER accessor, hence no text); the four files of every run of the command line tool over MC_Cli.Cases (strict RFC 7468 shape, also when written over longer files of an earlier run); distinct by (kind, algorithm, DER length)",
@@ -238,7 +238,7 @@ PROPS = {
               "MC_Purity: every interleaving of 3 threads x 2 generation calls over 19 templates (exhaustive, history hidden by a VIEW); sessions = TLC -simulate behaviours of the same module (4 threads x 6 calls interleaved with interfering calls: DN edits, key loads, failing parses, CSR parsing, the same key under other key-identifier methods, unrelated generations, CA import) replayed call by call; 19 generation templates (certificate self-signed / issued, CSR, CRL; rich names, 6 EKUs, name constraints, custom extensions; issuers that differ from each other in exactly one component: same key under two names, same name under two keys, one name under two RSA keys of one size; empty key identifier; auto-detected RSA-3072) on shared keys and issuers, each output's signature verified under the key the call was given; a hot phase of 8 threads x 2 400 generations alternating between those issuers; threads sharing Arc'd key and issuer; fresh processes (different hash-map seeds) sharing the same key files; distinct by (template, back end, process, thread, phase)",
               ops=["Gen"], exhaustive=False),
     "C16": _p("exploration", ["features", "backends", "keyxfer", "cert-awslc"], ["C16."],
-              "configuration enumeration: cargo check of rcgen for all 24 feature sets {ring | aws_lc_rs | none} x {pem} x {x509-parser} x {zeroize} plus the CLI with either back end (coverage predicate featureSets=24 evaluated by TLC); the purity sessions/threads/processes run under the ring, aws-lc-rs and crypto-less builds of the harness with the same key files and their to-be-signed digests compared through the specification's write-once registers (coverage genBackends=3); keys exported by each back end loaded by the other through four entry points; the MC_Cert case set issued under aws-lc-rs and verified by ring and OpenSSL; distinct by event arguments",
+              "configuration enumeration: cargo check of rcgen for all 24 feature sets {ring | aws_lc_rs | none} x {pem} x {x509-parser} x {zeroize} plus the CLI with either back end (coverage predicate featureSets=24 evaluated by TLC); the purity sessions/threads/processes run under the ring, aws-lc-rs and crypto-less builds of the harness with the same key files and their to-be-signed digests compared through the specification's write-once registers (coverage genBackends=3); keys exported by each back end loaded by the other through four entry points; the MC_Cert case set issued under aws-lc-rs and verified by ring and OpenSSL; distinct by event arguments; each build reports whether the shared key files load (KeyFile events); templates with 20-octet serial / CRL numbers whose first bit is set",
               ops=["Build", "Gen", "KeyXfer", "KeyFile", "Cert"], exhaustive=False),
     "C17": _p("model_checking", ["import"], ["C17."],
               "every self-signed case of MC_Cert.Cases (presence product sampled 1:3 in quick, all value sweeps: 512 key-usage sets, path lengths 0..255, prefixes 0..255, SAN / subtree / DN-kind variants, key-id methods, serial classes) is generated, imported through DER and PEM, and re-issued from the imported parameters with the same key; plus OpenSSL-generated CAs over MC_Import.Cases",
@@ -259,7 +259,7 @@ PROPS = {
               "union of the certificate, CSR and CRL case sets; automatic serials are driven through public keys searched so that SHA-256 of the key starts with each of 13 two-octet prefix classes (00 00, 00 80, 7F FF, 80 00, FF FF, ...)",
               ops=["Cert", "Csr", "Crl", "ImportCa"], exhaustive=True),
     "C01": _p("model_checking", ["faults", "cert", "csr", "crl", "csrparse", "sessions", "keys"], ["C01."],
-              "union of the certificate, CSR and CRL case sets (all algorithms, local keys through eight loading entry points and remote signers; keys generated by rcgen itself under both back ends, every RSA algorithm and size) plus MC_Sign: every subset of the five signing calls of a root/intermediate/leaf/CRL/CSR session failing at the first attempt, for several error values",
+              "union of the certificate, CSR and CRL case sets (all algorithms, local keys through eight loading entry points and remote signers; keys generated by rcgen itself under both back ends, every RSA algorithm and size) plus MC_Sign: every subset of the five signing calls of a root/intermediate/leaf/CRL/CSR session failing at the first attempt, for several error values; fault sessions with signers that refuse from a point on and signers that refuse one request only (transient)",
               ops=["Cert", "Csr", "Crl", "CsrIssue", "KeyGen"], exhaustive=True),
 }
 
